@@ -412,6 +412,21 @@ example : (((requestView plainOpaque (danceEnviron "http".toList "example.com:80
     "/é %41?x".toList "q=é".toList)).toOption.map (fun r => r.url)))
     = some "http://example.com:8080/app/é%20%2541%3Fx?q=é".toList := by decide
 
+/-- **`get_host` drops the scheme's default port as a suffix and nothing else**: the reported host is
+the Host header with `:80` (http, ws) resp. `:443` (https, wss) cut off its end, or the header itself -
+`10.0.0.80:80` gives `10.0.0.80`, never `10.0.0.`. -/
+theorem get_host_drops_only_default_port (scheme host : Str) :
+    (∃ suf, host = getHost scheme host ++ suf ∧
+      (suf = [] ∨ ((scheme = "http".toList ∨ scheme = "ws".toList) ∧ suf = ":80".toList) ∨
+        ((scheme = "https".toList ∨ scheme = "wss".toList) ∧ suf = ":443".toList))) ∧
+    (∀ h, (scheme = "http".toList ∨ scheme = "ws".toList) → getHost scheme (h ++ ":80".toList) = h) ∧
+    (∀ h, (scheme = "https".toList ∨ scheme = "wss".toList) → getHost scheme (h ++ ":443".toList) = h) :=
+  getHost_spec scheme host
+
+example : getHost "http".toList "10.0.0.80:80".toList = "10.0.0.80".toList ∧
+    getHost "https".toList "cdn4:443".toList = "cdn4".toList ∧
+    getHost "https".toList "10.0.0.80:80".toList = "10.0.0.80:80".toList := by decide
+
 /-- The latin-1 "dance" is lossless for every string of Unicode scalar values:
 `_wsgi_decoding_dance(_wsgi_encoding_dance(s)) == s`. -/
 theorem dance_roundtrip (s : Str) : decodingDance (encodingDance s) = some s :=
